@@ -70,6 +70,9 @@ def first_pass_menu(KR, KQ):
          (0, True, [1, 2, 3], [KQ, KQ - 1, KQ - 2]),             # reverse strand, molecule end on the reference start
          (0, False, [KR - 2, KR - 1, KR], [KQ - 2, KQ - 1, KQ]),  # aligned part at the molecule end
          (0, False, [2, 4], [2, 3])]                             # middle, with skipped labels
+    if KQ >= 10:
+        m.append((0, False, [3, 4], [5, 6]))                    # middle of a long molecule: both flanks become fragments
+        m.append((0, True, [3, 4], [6, 5]))
     return m
 
 
@@ -79,8 +82,9 @@ def second_pass_menu(KR, KQ, nrefs):
          (0, False, [3, 4, 5], [3, 4, 5]),                # overlaps a first-pass row ending at (3,3)
          (0, True, [KR - 1, KR], [2, 1]),                 # other strand
          (0, False, [1, 2], [KQ - 1, KQ])]                # same strand, far away / crossing
-    if nrefs > 1:
-        m.append((1, False, [KR - 1, KR], [KQ - 1, KQ]))  # other reference
+    m.append((1, False, [KR - 1, KR], [KQ - 1, KQ]) if nrefs > 1 else None)  # other reference
+    m.append((0, False, [1, 2], [1, 2]))                  # head of the molecule (left fragment)
+    m.append((0, True, [1, 2], [KQ, KQ - 1]))             # reverse strand, tail labels
     return m
 
 
@@ -218,15 +222,17 @@ MULTIPASS_STUBS = ["_WorkflowCoordinator.execute replaced by a generator of arbi
                    "covered by Level 1 and the orchestration unit)", "xmapReader.writeAlignments captured in memory; "
                    "createAdditionalOutputFile returns a name instead of opening a file"]
 
-MULTIPASS_BOUNDS = ("1-2 queries of 6 labels (quick) / up to 9 (thorough), 1-2 references of 6 labels; first-pass row per query chosen from "
-                    "{none, + at molecule start, - at molecule end, + at molecule end, + middle with skipped labels}; second-pass row "
-                    "per fragment from {none, continuation, overlapping, other strand, crossing, other reference}; label coordinates, "
+MULTIPASS_BOUNDS = ("1-2 queries of 6 labels and one query of 10 labels (both flanks of a middle alignment become fragments), 1-2 references of 6 "
+                    "labels; first-pass row per query chosen from {none, + at molecule start, - at molecule end, + at molecule end, + middle with "
+                    "skipped labels, +/- middle of the long molecule}; second-pass row per fragment from {none, continuation, overlapping, other "
+                    "strand, crossing, other reference, molecule head, reverse tail}; label coordinates, "
                     "seeds, pair scores > 0, unmatchedPenalty <= 0 and maxDifference >= 0 unbounded symbolic reals")
 
 
 def multipass_configs(tier):
     cfgs = [dict(KR=6, KQ=6, nq=1, nrefs=1), dict(KR=6, KQ=6, nq=1, nrefs=2, first=[1, 2, 3], second=[0, 1, 5])]
     cfgs.append(dict(KR=6, KQ=6, nq=2, nrefs=1, first=[0, 1, 2], second=[0, 1, 2]))
+    cfgs.append(dict(KR=6, KQ=10, nq=1, nrefs=1, first=[5, 6], second=[0, 1, 6, 7]))     # two fragments per query
     if tier != "quick":
         cfgs.append(dict(KR=6, KQ=6, nq=2, nrefs=1, first=[0, 1, 3, 4], second=[0, 1, 2, 4], swap_ids=True))
         cfgs.append(dict(KR=6, KQ=9, nq=1, nrefs=1))
@@ -353,12 +359,33 @@ def oracle_c08(E, world, res):
     E.check("checked", True)
 
 
+def oracle_c03(E, world, res):
+    from harness.cigar import cigar_failures
+    if not oracle_no_exception(E, world, res):
+        return
+    seen = set()
+    for mode, fname, rows in all_files(res):
+        for row in rows:
+            k = rowkey(row)
+            if k in seen:
+                continue
+            seen.add(k)
+            try:
+                s = row.cigarString
+            except Exception as ex:  # noqa
+                E.fail("exception-in-cigarString:" + type(ex).__name__)
+                continue
+            for b in cigar_failures(s, pairs_of(row), row.orientation == "-"):
+                E.fail("record:" + b)
+    E.check("checked", True)
+
+
 def oracle_c07(E, world, res):
     oracle_no_exception(E, world, res)
     E.check("checked", True)
 
 
-MP_ORACLES = {"C01": oracle_c01, "C05": oracle_c05, "C07": oracle_c07, "C08": oracle_c08}
+MP_ORACLES = {"C01": oracle_c01, "C03": oracle_c03, "C05": oracle_c05, "C07": oracle_c07, "C08": oracle_c08}
 
 
 def make_body(prop):
